@@ -24,7 +24,9 @@ ASSUMPTIONS = ['integers are sampled; MiniDB stands in for ZODB for the '
 def must_see(tier):
     return {'resolve-triples': 5000, 'equal-deltas': 100, 'zero-delta': 100,
             'db-schedules': 100, 'cell-histories': 100,
-            'setstate-zero-on-live': 20, 'subclass-default': 20}
+            'setstate-zero-on-live': 20, 'subclass-default': 20,
+            'session-steps': 500, 'session:commit': 50, 'session:evict': 30,
+            'session:abort': 20}
 
 
 def plan(tier, seed):
@@ -55,7 +57,18 @@ def _quota_class():
 def mag(x):
     a = abs(x)
     return (0 if a == 0 else 1 if a < 2 ** 31 else 2 if a < 2 ** 63 else
-            3 if a < 2 ** 65 else 4) * (1 if x >= 0 else -1)
+            3 if a < 2 ** 65 else 4 if a.bit_length() < 14000 else 5) * (
+                1 if x >= 0 else -1)
+
+
+def bi(x, n=60):
+    """brief() for integers of any size (repr() of a huge int raises)."""
+    if isinstance(x, (tuple, list)):
+        return '(%s)' % ', '.join(bi(y, n) for y in x)
+    if isinstance(x, int) and not isinstance(x, bool):
+        h = hex(x)
+        return h if len(h) <= n else '%s...(%d bits)' % (h[:n], x.bit_length())
+    return brief(x, n)
 
 
 def rand_int(rng):
@@ -67,8 +80,10 @@ def rand_int(rng):
         return rng.choice([1, -1]) * (2 ** b + rng.randint(-2, 2))
     if r < .7:
         return rng.randint(-1000, 1000)
-    return rng.choice([1, -1]) * rng.getrandbits(rng.choice([70, 200, 1000,
-                                                               4096]))
+    # (15000 and 40000 bits are beyond CPython's 4300-digit limit for
+    # int <-> str conversion: nothing on the way may format the number)
+    return rng.choice([1, -1]) * rng.getrandbits(rng.choice(
+        [70, 200, 1000, 4096, 15000, 40000]))
 
 
 def run_shard(spec, rec):
@@ -93,13 +108,13 @@ def run_shard(spec, rec):
         r2 = L._p_resolveConflict(old, old + b, old + a)
         if r1 != want or r2 != want or type(r1) is not int:
             rec.violation('resolution-lost-or-invented-an-update',
-                          old=brief(old, 60), a=brief(a, 60), b=brief(b, 60),
-                          observed=brief((r1, r2), 140),
-                          expected=brief(want, 70))
+                          old=bi(old), a=bi(a), b=bi(b),
+                          observed=bi((r1, r2), 70),
+                          expected=bi(want, 70))
             break
         if i % 5000 == 0:
-            rec.sample(dict(old=brief(old, 40), a=brief(a, 40),
-                            b=brief(b, 40), resolved=brief(r1, 40)))
+            rec.sample(dict(old=bi(old, 40), a=bi(a, 40),
+                            b=bi(b, 40), resolved=bi(r1, 40)))
     # ---- plain integer cell that survives pickling ------------------------
 
     Quota = _quota_class()
@@ -130,7 +145,12 @@ def run_shard(spec, rec):
                 model = v
                 what = 'set'
             elif r < .6:
-                o = pickle.loads(pickle.dumps(o, rng.randint(0, 5)))
+                proto = rng.randint(0, 5)
+                if abs(model).bit_length() > 14000:
+                    # text protocols write ints in decimal: CPython itself
+                    # refuses beyond 4300 digits
+                    proto = max(proto, 2)
+                o = pickle.loads(pickle.dumps(o, proto))
                 what = 'pickle'
             elif r < .65:
                 o = copy.deepcopy(o) if r < .625 else copy.copy(o)
@@ -149,8 +169,8 @@ def run_shard(spec, rec):
             rec.seen('cell', what, mag(model), type(o).__name__)
             if got != (model, model, model):
                 rec.violation('not-a-plain-integer-cell', after=what,
-                              observed=brief(got, 200),
-                              expected=brief(model, 80),
+                              observed=bi(got, 80),
+                              expected=bi(model, 80),
                               cls=cls.__name__)
                 break
     # ---- two connections through MiniDB -------------------------------------
@@ -176,10 +196,133 @@ def run_shard(spec, rec):
             second.commit()
         except Exception as e:
             rec.violation('length-commit-conflicted', detail='%s: %s' % (
-                type(e).__name__, e), old=brief(old, 60))
+                type(e).__name__, e), old=bi(old))
             continue
         got = minidb.Connection(st, 'c').get(oid)()
         if got != old + a + b:
-            rec.violation('concurrent-change-lost', observed=brief(got, 80),
-                          expected=brief(old + a + b, 80), old=brief(old, 60),
-                          a=brief(a, 60), b=brief(b, 60))
+            rec.violation('concurrent-change-lost', observed=bi(got, 80),
+                          expected=bi(old + a + b, 80), old=bi(old),
+                          a=bi(a), b=bi(b))
+
+    # ---- long-lived connections: many transactions on a LOADED counter ------
+    for s in range(spec['n'] // 400):
+        run_sessions(rng, rec, Length, s)
+
+
+class _Sess:
+    """Model of one MiniDB connection's view of the counter."""
+
+    def __init__(self, conn, obj):
+        self.conn, self.obj = conn, obj
+        self.loaded = False
+        self.lv = self.base = None
+        self.serial = None
+        self.dirty = False
+
+
+def run_sessions(rng, rec, Length, s):
+    """Two long-lived connections run several transactions each (change, set,
+    read, commit, abort, eviction) on a counter they LOADED from the
+    database; after every commit a fresh reader must see the model value:
+    no committed update may be lost, whatever the object went through
+    between its load and its n-th transaction."""
+    st = minidb.Storage()
+    c0 = minidb.Connection(st, 'c')
+    cv = rand_int(rng) if rng.random() < .3 else rng.randint(-5, 5)
+    oid = c0.add(Length(cv))
+    c0.commit()
+    hist_vals = {st.tid: cv}       # committed value per tid
+    sess = []
+    for _ in range(2):
+        conn = minidb.Connection(st, 'c')
+        sess.append(_Sess(conn, conn.get(oid)))
+    log = []
+
+    def activate(x):
+        if not x.loaded:
+            x.loaded = True
+            x.serial = st.current_tid(oid)
+            x.lv = x.base = hist_vals[x.serial]
+
+    for step in range(rng.randint(6, 30)):
+        x = sess[rng.randrange(2) if rng.random() < .35 else 0]
+        r = rng.random()
+        small = rng.random() < .8
+        if r < .30:
+            d = rng.choice([1, -1, 2, -2, 3]) if small else rand_int(rng)
+            what = ('change', sess.index(x), d)
+            activate(x)
+            x.obj.change(d)
+            x.lv += d
+            x.dirty = True
+        elif r < .36:
+            v = rng.randint(-3, 3) if small else rand_int(rng)
+            what = ('set', sess.index(x), v)
+            activate(x)
+            x.obj.set(v)
+            x.lv = v
+            x.dirty = True
+        elif r < .58:
+            what = ('commit', sess.index(x))
+            cur = st.current_tid(oid)
+            try:
+                x.conn.commit()
+            except Exception as e:
+                rec.violation('length-commit-conflicted', detail='%s: %s' % (
+                    type(e).__name__, e), history=brief(log[-20:], 500))
+                return
+            if x.dirty:
+                if x.serial == cur:
+                    cv = x.lv
+                    x.base = cv
+                else:
+                    # resolved against what was committed meanwhile; the
+                    # resolved object is invalidated by the data manager
+                    cv = cv + (x.lv - x.base)
+                    x.loaded = False
+                hist_vals[st.tid] = cv
+                x.serial = st.tid
+                x.dirty = False
+        elif r < .66:
+            what = ('abort', sess.index(x))
+            x.conn.abort()
+            if x.dirty:
+                x.loaded = False
+                x.dirty = False
+        elif r < .78:
+            what = ('evict', sess.index(x))
+            if rng.random() < .5:
+                x.obj._p_deactivate()
+            else:
+                x.conn.cache.minimize()
+            if x.loaded and not x.dirty:
+                x.loaded = False
+        else:
+            what = ('read', sess.index(x))
+            activate(x)
+        log.append(what)
+        rec.evaluations += 1
+        rec.ev('session-steps')
+        rec.ev('session:' + what[0])
+        rec.seen('session', what[0], x.dirty, x.loaded)
+        if what[0] in ('change', 'set', 'read'):
+            got = x.obj()
+            if got != x.lv:
+                rec.violation('loaded-counter-shows-wrong-value',
+                              after=brief(what, 80), observed=bi(got, 80),
+                              expected=bi(x.lv, 80),
+                              history=brief(log[-20:], 500))
+                return
+        if what[0] == 'commit':
+            got = minidb.Connection(st, 'c').get(oid)()
+            if got != cv:
+                rec.violation('committed-update-lost', observed=bi(got, 80),
+                              expected=bi(cv, 80),
+                              history=brief(log[-20:], 500))
+                return
+        if x.dirty and not x.obj._p_changed:
+            # (the modified counter would be evictable and skipped at commit)
+            rec.violation('modified-counter-not-marked-changed',
+                          after=brief(what, 80),
+                          history=brief(log[-20:], 500))
+            return
